@@ -75,7 +75,7 @@ impl Stage for Unasked {
         "unasked"
     }
     fn cases(&self, tier: Tier) -> u32 {
-        tier.pick(4000, 60000)
+        tier.pick(10000, 600000)
     }
     fn strategy(&self, _t: Tier) -> BoxedStrategy<Case> {
         let tid = prop_oneof![
